@@ -551,7 +551,7 @@ class K3Case:
 
     def text(self, ignore_override=None) -> str:
         lines = []
-        if self.actor != 'command':
+        if self.actor != 'command' and self.act != 'empty':
             lines += ['[conf]', 'actor = ' + self.actor + ('' if self.actor == 'null' else ' ' + self.interp.text())]
         lines += ['[setup]', sp.DEF_L, sp.DEF_P, sp.DEF_E, sp.DEF_G]
         if self.cd:
@@ -566,6 +566,8 @@ class K3Case:
             lines.append(self.act.text())
         elif self.actor == 'file':
             lines.append('src.py ' + sp.arg_text(self.act))
+        elif self.actor == 'null' and self.act == 'empty':
+            lines += ['', '# only a comment']
         else:
             lines += list(SOURCE_LINES)
         lines.append('[before-assert]')
@@ -726,6 +728,8 @@ def _k3_cases(tier: str) -> List[K3Case]:
     add('source-actor', actor='source', setup_stdin='here-doc')
     add('source-actor/no-stdin', actor='source', cd=True, interp=Pgm('python', '', ['option']))
     add('null-actor', actor='null', setup_stdin='string')
+    # default actor, act phase without source: nothing is executed (the null actor is used)
+    add('null-actor/empty-act-phase', actor='null', act='empty', setup_stdin='string')
     # ---- programs run as instructions, in every phase, by run / % / $
     rp = lambda name, args=('sym',), **k: Pgm('sys', name, list(args), **k)
     for ph in PHASES:
@@ -1046,7 +1050,7 @@ def obligations(tier: str) -> List[Ob]:
             name='K3:' + c.name, fn='k3_whole', case=dict(scenario=c.name, maxlen=m3), kernel='K3',
             bound='test case %r: every value of the predefined string symbols S0, S1 of <= %d characters (any characters)' % (
                 c.text(), m3),
-            timeout=300, real=REAL_K3, stubs=(STUB_SUBPROCESS, STUB_SYMBOLS, STUB_SANDBOX),
+            timeout=(300 if tier == 'quick' else 900), real=REAL_K3, stubs=(STUB_SUBPROCESS, STUB_SYMBOLS, STUB_SANDBOX),
             outside=('stdin / stdout / stderr texts and the act-phase source of the source interpreter are catalogue values '
                      '(they cross the file layer)',),
             entry='full_execution.execute on the parsed test case (what MainProgram runs for a case file)'))
@@ -1205,4 +1209,7 @@ OUTSIDE = [
     'catalogue values (K3)',
     'chains of program symbols longer than 3 (quick) / 4 (thorough); argument lists beyond the catalogue',
     'Windows (only the posix executable factory is driven)',
+    'programs started by the `run` text-transformer / matchers and by the suite preprocessor',
+    'the environment variables and the timeout handed to the process (C11, C19): K1 only checks that the settings '
+    'object reaches subprocess.call unchanged',
 ]
